@@ -51,23 +51,28 @@ Wrap(S) == {ListT(t) : t \in S} \cup {DictT(t) : t \in S} \cup {OptT(t) : t \in 
 \* the type a field really has in the dataclass: a non-required field is `Optional[T] = None`
 EffTy(f) == IF f.req \/ f.ty.k = "opt" THEN f.ty ELSE OptT(f.ty)
 
-RECURSIVE Reach(_, _)
-Reach(cl, T) ==   \* classes reachable through the annotation (what hook registration must cover)
-  CASE T.k = "leaf" -> {}
-    [] T.k \in {"list", "dict", "opt"} -> Reach(cl, T.of)
-    [] T.k = "cls" -> {T.name} \cup UNION {Reach(cl, cl[T.name].fields[i].ty) : i \in 1..Len(cl[T.name].fields)}
-
 RECURSIVE Tops(_)
 Tops(T) ==        \* classes named by the annotation itself (through list / dict / Optional wrappers only)
   CASE T.k = "leaf" -> {}
     [] T.k \in {"list", "dict", "opt"} -> Tops(T.of)
     [] T.k = "cls" -> {T.name}
 
-RECURSIVE TyDepth(_, _)
-TyDepth(cl, T) ==
+\* The classes of a table form a GRAPH (a field of P may mention Q and a field of Q may mention P: mutual
+\* recursion through list / dict / Optional / direct links), not only a tree: reachability is a fixpoint.
+FieldTops(cl, n) == UNION {Tops(cl[n].fields[i].ty) : i \in 1..Len(cl[n].fields)}
+RECURSIVE ReachFix(_, _)
+ReachFix(cl, S) == LET nxt == S \cup UNION {FieldTops(cl, n) : n \in S} IN IF nxt = S THEN S ELSE ReachFix(cl, nxt)
+Reach(cl, T) == ReachFix(cl, Tops(T))   \* classes reachable through the annotation (what hook registration must cover)
+OnTypeCycle(cl, n) == n \in ReachFix(cl, FieldTops(cl, n))
+CyclicTable(cl) == \E n \in DOMAIN cl : OnTypeCycle(cl, n)
+
+RECURSIVE TyDepthF(_, _, _)
+TyDepthF(cl, T, fuel) ==
   CASE T.k = "leaf" -> 1
-    [] T.k \in {"list", "dict", "opt"} -> 1 + TyDepth(cl, T.of)
-    [] T.k = "cls" -> 1 + Max({0} \cup {TyDepth(cl, cl[T.name].fields[i].ty) : i \in 1..Len(cl[T.name].fields)})
+    [] T.k \in {"list", "dict", "opt"} -> 1 + TyDepthF(cl, T.of, fuel)
+    [] T.k = "cls" -> IF fuel = 0 THEN 1
+                      ELSE 1 + Max({0} \cup {TyDepthF(cl, cl[T.name].fields[i].ty, fuel - 1) : i \in 1..Len(cl[T.name].fields)})
+TyDepth(cl, T) == TyDepthF(cl, T, 4)     \* for a cyclic table: depth of the unfolding used for instances
 
 \* key styles: (python name, wire key) per field position, per class role.  Keyword-like keys, camelCase
 \* vs snake_case, keys that collide after case-folding, keys that are ANOTHER field's python name (swap),
@@ -85,9 +90,9 @@ StyleTab ==
           kw    |-> << <<"import_", "import">>, <<"return_", "return">>,     <<"type_", "type">> >>,
           swap  |-> << <<"left", "right">>,     <<"right", "left">>,         <<"middle", "middle">> >>,
           fold  |-> << <<"d_num", "dNum">>,     <<"dnum", "dnum">>,          <<"dn_um", "dnUm">> >>],
-   E |-> [plain |-> << <<"deep", "deep">> >>,
-          camel |-> << <<"deep_val", "deepVal">> >>,
-          kw    |-> << <<"while_", "while">> >>]]
+   E |-> [plain |-> << <<"deep", "deep">>,         <<"deeper", "deeper">> >>,
+          camel |-> << <<"deep_val", "deepVal">>, <<"deep_link", "deepLink">> >>,
+          kw    |-> << <<"while_", "while">>,     <<"for_", "for">> >>]]
 StyleMeta == [plain |-> "none", camel |-> "full", kw |-> "full", fold |-> "full", swap |-> "full", diff |-> "diff", ident |-> "full"]
 PyName(role, style, i)   == StyleTab[role][style][i][1]
 WireName(role, style, i) == StyleTab[role][style][i][2]
@@ -161,19 +166,27 @@ Conforms(cl, j, T) ==
                             ELSE ~fs[i].req
 
 \* m-th representative instance of a type (m in 1..3): 1 = everything present, first values;
-\* 2 = only what is required, second values; 3 = everything present, optionals null, empty containers
-RECURSIVE Rep(_, _, _)
-Rep(cl, T, m) ==
+\* 2 = only what is required, second values; 3 = everything present, optionals null, empty containers.
+\* fuel = number of class levels still to unfold (recursive class tables have no finite "everything present"
+\* instance): at fuel 0 containers are empty, optionals null / absent, only required fields present.  A cycle of
+\* the class graph must therefore pass through a list, dict or Optional link (otherwise no finite instance exists).
+RECURSIVE RepF(_, _, _, _)
+RepF(cl, T, m, fuel) ==
   CASE T.k = "leaf" -> WLeaf(WireTag(T.p), Canon(T.p, IF m = 2 THEN 2 ELSE 1))
-    [] T.k = "opt"  -> IF m = 3 THEN WNull ELSE Rep(cl, T.of, m)
-    [] T.k = "list" -> IF m = 1 THEN WList(<<Rep(cl, T.of, 1), Rep(cl, T.of, 2)>>)
-                       ELSE IF m = 2 THEN WList(<<Rep(cl, T.of, 2)>>) ELSE WList(<<>>)
-    [] T.k = "dict" -> IF m = 1 THEN WObj([key \in {"k1", "class"} |-> IF key = "k1" THEN Rep(cl, T.of, 1) ELSE Rep(cl, T.of, 2)])
-                       ELSE IF m = 2 THEN WObj([key \in {"userId"} |-> Rep(cl, T.of, 2)]) ELSE WObj(<<>>)
+    [] T.k = "opt"  -> IF m = 3 \/ fuel = 0 THEN WNull ELSE RepF(cl, T.of, m, fuel)
+    [] T.k = "list" -> IF fuel = 0 THEN WList(<<>>)
+                       ELSE IF m = 1 THEN WList(<<RepF(cl, T.of, 1, fuel), RepF(cl, T.of, 2, fuel)>>)
+                       ELSE IF m = 2 THEN WList(<<RepF(cl, T.of, 2, fuel)>>) ELSE WList(<<>>)
+    [] T.k = "dict" -> IF fuel = 0 THEN WObj(<<>>)
+                       ELSE IF m = 1 THEN WObj([key \in {"k1", "class"} |-> IF key = "k1" THEN RepF(cl, T.of, 1, fuel) ELSE RepF(cl, T.of, 2, fuel)])
+                       ELSE IF m = 2 THEN WObj([key \in {"userId"} |-> RepF(cl, T.of, 2, fuel)]) ELSE WObj(<<>>)
     [] T.k = "cls"  -> LET fs == cl[T.name].fields
-                           present == {i \in 1..Len(fs) : m # 2 \/ fs[i].req}
+                           sub == IF fuel = 0 THEN 0 ELSE fuel - 1
+                           present == {i \in 1..Len(fs) : (m # 2 /\ fuel # 0) \/ fs[i].req}
                            at(w) == CHOOSE i \in present : fs[i].wire = w
-                       IN WObj([w \in {fs[i].wire : i \in present} |-> Rep(cl, EffTy(fs[at(w)]), m)])
+                       IN WObj([w \in {fs[i].wire : i \in present} |-> RepF(cl, EffTy(fs[at(w)]), m, sub)])
+RepFuel(cl) == IF CyclicTable(cl) THEN Cardinality(DOMAIN cl) + 1 ELSE 6   \* cyclic: once around the cycle and back in
+Rep(cl, T, m) == RepF(cl, T, m, RepFuel(cl))
 
 \* instances of the TOP type: every presence subset of the optional fields, each present field ranging over the
 \* representatives of its type (nested positions use the three representatives)
